@@ -21,7 +21,7 @@ from pathlib import Path
 VERIF = Path(__file__).resolve().parent.parent
 prop, k = sys.argv[1], sys.argv[2]
 full = "--full" in sys.argv
-src = Path("/tmp/seed_out") / prop
+src = Path(os.environ.get("SEED_SRC", "/tmp/seed_out")) / prop
 patch = src / f"patch_{k}.diff"
 demo = src / f"demo_{k}.py"
 notes = {}
@@ -31,7 +31,7 @@ try:
             notes = n
 except Exception:
     pass
-sid = f"{prop}-{k}"
+sid = f"{prop}-{os.environ.get('SEED_TAG', '')}{k}"
 wt = Path(tempfile.mkdtemp(prefix=f"icg_confirm_{sid}_"))
 wt.rmdir()
 subprocess.run(["git", "-C", "/repo", "worktree", "add", "-q", "--detach", str(wt), "HEAD"], check=True)
